@@ -5,6 +5,7 @@ import (
 	"go/types"
 	"math"
 	"math/bits"
+	"os"
 	"sort"
 	"strings"
 
@@ -466,6 +467,23 @@ func builtinIntercepts() map[string]intercept {
 		x.havoc(p, pt.Elem(), 0)
 		return nil
 	}
+	m[apiPkg+"SameExcept"] = func(x *Exec, fn *ssa.Function, args []Value) []Value {
+		ia, ib := args[0].(Iface), args[1].(Iface)
+		pt, ok := ia.T.Underlying().(*types.Pointer)
+		if !ok || !types.Identical(ia.T, ib.T) {
+			efail("SameExcept needs two pointers of the same type")
+		}
+		skip := map[string]bool{}
+		if sl, ok := args[2].(Slice); ok && sl.P.Obj != nil {
+			if !sl.Len.IsConst() {
+				efail("SameExcept: symbolic skip list")
+			}
+			for i := 0; i < int(sl.Len.Val); i++ {
+				skip[x.strString(x.read(sl.P.Obj, sl.P.Off+i).(Str))] = true
+			}
+		}
+		return []Value{x.sameState(ia.V.(Pointer), ib.V.(Pointer), pt.Elem(), 0, skip)}
+	}
 	m[apiPkg+"Symbolic"] = func(x *Exec, fn *ssa.Function, args []Value) []Value {
 		return []Value{x.e.C.True()}
 	}
@@ -828,6 +846,105 @@ func (x *Exec) bitLen(t *smt.Term) *smt.Term {
 // havoc makes every integer/boolean cell reachable through t at p (struct fields, array elements,
 // elements of non-nil slices) a fresh unconstrained symbol, in depth-first declaration order
 // (the native implementation in verifapi walks in the same order).
+// sameState: conjunction of cell-wise equality of two values of type t in memory (top-level struct
+// fields named in skip are ignored); slices compare by length and contents, pointers by nil-ness and
+// pointee contents, floats must be concrete.
+func (x *Exec) sameState(pa, pb Pointer, t types.Type, depth int, skip map[string]bool) *smt.Term {
+	c := x.e.C
+	if depth > 8 {
+		efail("SameExcept: nesting too deep")
+	}
+	switch u := t.Underlying().(type) {
+	case *types.Struct:
+		r := c.True()
+		for i := 0; i < u.NumFields(); i++ {
+			if depth == 0 && skip[u.Field(i).Name()] {
+				continue
+			}
+			if u.Field(i).Name() == "_" {
+				continue
+			}
+			fa, fb := pa, pb
+			off := x.e.lay.fieldOffset(u, i)
+			fa.Off += off
+			fb.Off += off
+			ft := x.sameState(fa, fb, u.Field(i).Type(), depth+1, nil)
+			if depth == 0 && os.Getenv("VERIF_SAMEDBG") != "" && !(ft.IsConst() && ft.Val == 1) {
+				st := "symbolic"
+				if ft.IsConst() {
+					st = "DIFFERENT"
+				}
+				fmt.Fprintf(os.Stderr, "SameExcept: field %s %s\n", u.Field(i).Name(), st)
+			}
+			r = c.BAnd(r, ft)
+		}
+		return r
+	case *types.Array:
+		k := x.e.lay.slots(u.Elem())
+		var ts []*smt.Term
+		for i := 0; i < int(u.Len()); i++ {
+			ea, eb := pa, pb
+			ea.Off += i * k
+			eb.Off += i * k
+			ts = append(ts, x.sameState(ea, eb, u.Elem(), depth+1, nil))
+		}
+		return c.AndAll(ts)
+	case *types.Slice:
+		va, _ := x.read(pa.Obj, pa.Off).(Slice)
+		vb, _ := x.read(pb.Obj, pb.Off).(Slice)
+		la, lb := va.Len, vb.Len
+		if la == nil {
+			la = x.e.intTerm(0)
+		}
+		if lb == nil {
+			lb = x.e.intTerm(0)
+		}
+		if !la.IsConst() || !lb.IsConst() {
+			efail("SameExcept: slice of symbolic length")
+		}
+		if la.Val != lb.Val {
+			return c.False()
+		}
+		k := x.e.lay.slots(u.Elem())
+		var ts []*smt.Term
+		for i := 0; i < int(la.Val); i++ {
+			ea, eb := va.P, vb.P
+			ea.Off += i * k
+			eb.Off += i * k
+			ts = append(ts, x.sameState(ea, eb, u.Elem(), depth+1, nil))
+		}
+		return c.AndAll(ts)
+	case *types.Pointer:
+		va, _ := x.read(pa.Obj, pa.Off).(Pointer)
+		vb, _ := x.read(pb.Obj, pb.Off).(Pointer)
+		if va.IsNil() != vb.IsNil() {
+			return c.False()
+		}
+		if va.IsNil() || (va.Obj == vb.Obj && va.Off == vb.Off) {
+			return c.True()
+		}
+		return x.sameState(va, vb, u.Elem(), depth+1, nil)
+	case *types.Basic:
+		va, vb := x.read(pa.Obj, pa.Off), x.read(pb.Obj, pb.Off)
+		if va == nil {
+			va = x.e.zeroLeaf(t)
+		}
+		if vb == nil {
+			vb = x.e.zeroLeaf(t)
+		}
+		switch a := va.(type) {
+		case *smt.Term:
+			return c.Eq(a, vb.(*smt.Term))
+		case Float:
+			return c.Bool(a.V == vb.(Float).V)
+		case Str:
+			return c.Bool(x.strString(a) == x.strString(vb.(Str)))
+		}
+	}
+	efail("SameExcept: unsupported field type %s", t)
+	return nil
+}
+
 func (x *Exec) havoc(p Pointer, t types.Type, depth int) {
 	if depth > 6 {
 		return
